@@ -458,7 +458,7 @@ class Flow:
                     return ast.copy_location(base, node)
                 if d.kind != "assign" or d.value is None:
                     return leave(node)
-                if any(m.var == node.id and m.kind == "mutate" for m in flow.defs_at.get(at, ())):
+                if any(m.var == node.id and m.kind == "mutate" and isinstance(m.value, ast.Call) for m in flow.defs_at.get(at, ())):
                     return leave(node)   # the object being updated in place by this very statement keeps its name
                 # a stateful call substituted for its temporary denotes "the latest execution of call site #k", which is
                 # what the single reaching definition holds; a stale copy (`prev = x` before `x` is read again) is
@@ -474,6 +474,15 @@ class Flow:
                     st = flow._forwarded_store(node.value.id, node.slice.value, at)
                     if st is not None:
                         return flow._expand(clone(st.value.elts[0]), st.value.elts[0], st.node, depth - 1, stop, root)
+                if isinstance(node.value, ast.Name) and depth > 0 and node.value.id not in stop and not getattr(node.value, "_bound", False):
+                    # `row = self.data[i]; row[j]` names the element self.data[i][j]: element stores through the view do not
+                    # change which object the view is
+                    ds = [d for d in flow.reaching(node.value.id, at) if d.kind != "mutate" or isinstance(d.value, ast.Call)]
+                    if len(ds) == 1 and ds[0].kind == "assign" and isinstance(ds[0].value, (ast.Subscript, ast.Attribute)) and \
+                            len(flow.reaching(node.value.id, at)) > 1:
+                        base = flow._expand(clone(ds[0].value), ds[0].value, ds[0].node, depth - 1, stop, root)
+                        new_node = ast.copy_location(ast.Subscript(value=base, slice=self.visit(node.slice), ctx=node.ctx), node)
+                        return new_node
                 return self.generic_visit(node)
 
             def visit_Attribute(self, node: ast.Attribute):  # noqa: N802
